@@ -133,6 +133,7 @@ type c16H struct {
 	// inherited: temp sets created by a restore session that failed while a main set carried
 	// Felix's "destroy failed, skip until resync" mark (known finding c16KnownMarkInherited).
 	inherited   map[string]bool
+	marked      map[string]bool // mirror of Felix's destroy-failed mark: any failed destroy since the set was last listed
 	sessTemps   map[int][]string // restore CmdSeq -> temp sets it created
 	rec         *ev.Recorder
 
@@ -223,9 +224,11 @@ func (h *c16H) observe(k *ktsim.IPSetKernel, e *ktsim.IPSetEvent) {
 			h.taint[name] = false
 			h.exempt[name] = false
 			h.inherited[name] = false
+			h.marked[name] = false
 		} else if e.Cause == "semantic" && !k.Exists(name) {
 			h.taint[name] = false
 			h.exempt[name] = false
+			h.marked[name] = false
 		}
 		if e.Cause == "injected" {
 			h.callFaults++
@@ -254,6 +257,10 @@ func (h *c16H) observe(k *ktsim.IPSetKernel, e *ktsim.IPSetEvent) {
 		if e.Cause == "injected" {
 			h.callFaults++
 		}
+		if strings.HasPrefix(e.Line, "destroy ") {
+			// Any failed destroy makes Felix mark the set "skip until next resync".
+			h.marked[strings.TrimPrefix(e.Line, "destroy ")] = true
+		}
 		if strings.HasPrefix(e.Line, "destroy ") && (e.Cause == "injected" || e.Cause == "extref") {
 			h.exempt[strings.TrimPrefix(e.Line, "destroy ")] = true
 		}
@@ -262,7 +269,7 @@ func (h *c16H) observe(k *ktsim.IPSetKernel, e *ktsim.IPSetEvent) {
 		}
 		if e.Cmd == "restore" {
 			anyMarked := false
-			for n, x := range h.exempt {
+			for n, x := range h.marked {
 				if x && !h.cfg.IsTempIPSetName(n) {
 					anyMarked = true
 				}
@@ -365,6 +372,7 @@ func (h *c16H) newFelix() {
 	h.all = map[string]*c16Desired{}
 	h.filter = nil
 	h.exempt = map[string]bool{}
+	h.marked = map[string]bool{}
 }
 
 // applyUpdates runs ApplyUpdates; returns false if it panicked with the documented
@@ -562,7 +570,7 @@ func TestVerifC16IPSetSync(t *testing.T) {
 		"members stay within maxelem / the bitmap range")
 	defer rec.Write()
 	rapid.Check(t, func(t *rapid.T) {
-		h := &c16H{t: t, classes: map[string]bool{}, rec: rec, leaked: map[string]bool{}, inherited: map[string]bool{}, sessTemps: map[int][]string{}}
+		h := &c16H{t: t, classes: map[string]bool{}, rec: rec, leaked: map[string]bool{}, inherited: map[string]bool{}, marked: map[string]bool{}, sessTemps: map[int][]string{}}
 		h.v6 = rapid.IntRange(0, 6).Draw(t, "plane") == 0
 		h.family = "inet"
 		fam := ipsets.IPFamilyV4
